@@ -232,6 +232,8 @@ class Interp:
 
 def run_case(case):
     LAST_TAGS.clear()
+    if case.get('kind') == 'alias':
+        return check_alias()
     it = Interp()
     for op in case['ops']:
         it.step(op)
@@ -246,6 +248,8 @@ def run_case(case):
 
 
 def nontrivial(case):
+    if case.get('kind') == 'alias':
+        return True
     it = Interp()
     for op in case['ops']:
         it.step(op)
@@ -323,6 +327,35 @@ def grid_cases():
             yield {'ops': [['new', t, {}, 'ctor'], ['copy', {'type': t2}, True], ['set', 'time', 2]], 'grid_edge': True}
         if t != 'sysex':
             yield {'ops': [['new', t, {}, 'ctor'], ['iadd', [1]], ['set', 'time', 2]], 'grid_edge': True}
+
+
+def check_alias():
+    """Arguments stay the caller's: editing a list after it was passed as data must not reach into the message."""
+    out = []
+    for how in ('ctor', 'set', 'copy', 'iadd', 'from_dict'):
+        lst = [1, 2, 3]
+        if how == 'ctor':
+            m = mido.Message('sysex', data=lst)
+        elif how == 'set':
+            m = mido.Message('sysex')
+            m.data = lst
+        elif how == 'copy':
+            m = mido.Message('sysex').copy(data=lst)
+        elif how == 'iadd':
+            m = mido.Message('sysex')
+            m.data += lst
+        else:
+            m = mido.Message.from_dict({'type': 'sysex', 'data': lst})
+        lst.append(200)
+        lst[0] = 'x'
+        if tuple(m.data) != (1, 2, 3) or R.ref_valid_vars(vars(m)):
+            out.append(fail('argument-aliased', f'sysex data passed via {how} follows later edits of the list: {m!r}', how=how))
+        d = m.dict()
+        d['data'].append(300)
+        d['time'] = 'x'
+        if tuple(m.data) != (1, 2, 3) or m.time != 0:
+            out.append(fail('result-aliased', f'editing the result of dict() changed the message: {m!r}', how=how))
+    return out
 
 
 def grid_shard(rec, shard):
@@ -435,6 +468,7 @@ def machine_shard(rec, shard):
 
 
 def main(ctx):
+    ctx.check({'kind': 'alias'})
     ctx.pmap('grid_shard', [(k, 16) for k in range(16)])
     ctx.exhaustive = True
     ctx.extra['exhaustive_scope'] = 'the attribute x value-pool x entry-point grid (finite by construction); histories sampled'
